@@ -60,7 +60,17 @@ class ProofRun(FullStack):
         # the block processor undoes and re-indexes; between an advance and the next flush the new blocks are
         # in memory only: by-height requests in that window must be refused or answered for the new chain
         oldchain = self.tree.chain(tip.bid)
+        gap_done = False
         for _ in range(80):
+            bj = self.bp_jobs()
+            if not gap_done and bj and 'backup_block' in bj[0].name and not bj[0].executed and self.db.state.height == base.height + 1:
+                # real threads: the worker undoing a block truncates the header cache and moves the files pointer before it
+                # rolls back the databases and the chain state.  The job runs in a thread of its own and is parked before its
+                # first LevelDB commit (the history roll-back); a header proof against the old tip is served meanwhile.  Done for
+                # the last block undone: no later truncation can repair what this one leaves behind.
+                gap_done = True
+                self.gap_request(bj[0])
+                continue
             self.micro('bp')
             # by-height requests for blocks about to be undone (they are still indexed: the answer is theirs) - whatever they
             # leave in the by-height caches must be gone when the reorganisation is over
@@ -116,6 +126,47 @@ class ProofRun(FullStack):
         self.mine(210)
         self.quiesce()
         self.check_all('after another block')
+
+    def gap_request(self, job):
+        import threading
+        from harness.crashio import CTL
+        ctl = {'thread': None, 'match': ('batch', 'hist'), 'count': 0, 'parked': threading.Event(), 'resume': threading.Event()}
+        done = threading.Event()
+        err = []
+
+        def body():
+            ctl['thread'] = threading.get_ident()
+            CTL.park = ctl
+            try:
+                job.execute()
+            except BaseException as e:      # pylint:disable=broad-except
+                err.append(e)
+            finally:
+                done.set()
+                ctl['parked'].set()
+        th = threading.Thread(target=body, daemon=True)
+        th.start()
+        ctl['parked'].wait()
+        if not done.is_set():
+            h = self.db.state.height          # (not rolled back yet)
+            rr = self.request('p', 'blockchain.block.header', [1, h])
+            for _ in range(30):
+                self.loop.run_until_idle()
+                if rr in self.clients['p'].replies:
+                    break
+                free = [j for j in self.session_jobs() if j not in self.hold and j is not job]
+                if not free:
+                    break
+                free[0].deliver()
+            self.checked += 1
+            self.gap_tried = True
+        ctl['resume'].set()
+        th.join(timeout=20)
+        CTL.park = None
+        if err:
+            raise err[0]
+        job.deliver()
+        self.loop.run_until_idle()
 
     # ------------------------------------------------------------------ verification
     def expect_error(self, reply, what):
